@@ -2,8 +2,8 @@
 from props import forest_common as fc
 
 ID = "C18"
-LEVEL_TEXT = ("On the Lean mirror the two flavours are proved to run the same program for every structural call with tree-node "
-              "arguments: same outcome, same forest and same hook log for every forest, fault schedule, assertion setting and fuel "
+LEVEL_TEXT = ("On the Lean mirror the two flavours are proved to run the same program for every structural call (constructors included) "
+              "with tree-node arguments and, by induction, along every operation history (history_flavor, query_flavor): same outcome, same forest and same hook log for every forest, fault schedule, assertion setting and fuel "
               "(the flavour is read only where a non-node argument is type-checked); the read side has a single mirror for both. "
               "The tie is relational: every history (with fault schedules) is run in lock-step on a NodeMixin class and a "
               "LightNodeMixin (__slots__) class of /repo and everything observable is compared - outcome class, full link map and "
@@ -19,7 +19,13 @@ THEOREMS = [
     ("Anytree.Props.C18.setChildren_flavor", "full"),
     ("Anytree.Props.C18.setChildren_nonIterable_flavor", "full"),
     ("Anytree.Props.C18.setChildrenNodes_eq", "full"),
+    ("Anytree.Props.C18b.ctor_flavor", "full"),
+    ("Anytree.Props.C18b.exec_flavor", "full"),
+    ("Anytree.Props.C18b.history_flavor", "full"),
+    ("Anytree.Props.C18b.query_flavor", "full"),
+    ("Anytree.Props.C18b.nonNode_differs", "witness"),
 ]
+MODULES = ["Anytree.Props.C18", "Anytree.Props.C18b"]
 NOT_COVERED = ["the read-only queries are equal for the two flavours by construction of the model (one mirror); that the two Python "
                "copies of the read-only code agree is established by the lock-step run only"]
 PREDICATE_SPEC = True
